@@ -171,6 +171,13 @@ func (m *UnboundedFairMailbox) Enqueue(msg *ReceiveContext) error {
 			m.active.enqueue(sq)
 		}
 	}
+	// The sender may have been deactivated by a Dequeue that could not yet see
+	// this (or an earlier, still linking) message; pending is then above one
+	// and the transition above does not fire. A sender with queued messages
+	// must be on the active list.
+	if atomic.LoadInt64(&sq.pending) > 0 && !sq.active.Load() && sq.active.CompareAndSwap(false, true) {
+		m.active.enqueue(sq)
+	}
 	return nil
 }
 
@@ -193,7 +200,17 @@ func (m *UnboundedFairMailbox) Dequeue() (msg *ReceiveContext) {
 	if msg == nil {
 		// per‑sender queue was drained concurrently; mark inactive
 		sq.active.Store(false)
-		return
+		// An enqueue that swapped the per-sender tail before the one that
+		// activated this sender may still be linking its node, which hides
+		// the messages queued behind it. If they became visible meanwhile,
+		// re-activate the sender; otherwise that enqueue re-activates it
+		// itself once it completes (see Enqueue).
+		if !sq.mailbox.IsEmpty() && sq.active.CompareAndSwap(false, true) {
+			m.active.enqueue(sq)
+		}
+		// A sender listed without visible messages must not hide the other
+		// active senders: serve the next one.
+		return m.Dequeue()
 	}
 
 	atomic.AddInt64(&m.length, -1)
